@@ -170,7 +170,7 @@ func (r *runner) stepMulThenAdd(op Op, key, cls string, ia int) error {
 		nonInt := false
 		suspectTrunc := false
 		switch {
-		case ratio.Cmp(new(big.Rat).SetInt64(1)) == 0 || rf < 1+1e-30:
+		case ratio.Cmp(new(big.Rat).SetInt64(1)) == 0:
 			exp.scale = o.scale
 			exp.eps = o.eps + epsAB
 			r.rec.Class("mulThenAdd=equal-scale")
@@ -179,8 +179,14 @@ func (r *runner) stepMulThenAdd(op Op, key, cls string, ia int) error {
 			return nil
 		case rf < 2:
 			exp.scale = o.scale
-			exp.eps = o.eps + epsAB*rf + ma*mb*(rf-1)
+			// the product is added as it is: it is read at the accumulator's scale, i.e. multiplied by the ratio. The
+			// excess ratio-1 is taken from the exact rational (in float64 an excess below 2^-53 would round to zero)
+			excess := ratFloat(new(big.Rat).Sub(ratio, new(big.Rat).SetInt64(1)))
+			exp.eps = o.eps + epsAB*rf + ma*mb*excess
 			r.rec.Class("mulThenAdd=ratio<2")
+			if excess < 1e-15 {
+				r.rec.Class("mulThenAdd=ratio-1-below-2^-50")
+			}
 		default:
 			exp.scale = sres
 			align := 0.0
